@@ -2,6 +2,7 @@
 //! One subcommand per property; see /verif/DESIGN.md.
 
 mod c11_c13;
+#[path = "../../common/ctx.rs"]
 mod ctx;
 mod explore;
 mod par;
